@@ -27,8 +27,9 @@ def main() -> int:
     prop = args.prop.upper()
     import bellows
 
-    if not os.path.abspath(bellows.__file__).startswith("/repo/"):
-        print(f"internal error: bellows imported from {bellows.__file__}, not /repo", file=sys.stderr)
+    repo = os.environ.get("VERIF_REPO", "/repo").rstrip("/") + "/"
+    if not os.path.abspath(bellows.__file__).startswith(repo):
+        print(f"internal error: bellows imported from {bellows.__file__}, not {repo}", file=sys.stderr)
         return 2
     try:
         mod = importlib.import_module(f"mc.checks.{prop.lower()}")
